@@ -154,6 +154,11 @@ def lmpdat_check(st):
         bad.append("positions differ after reading back")
     if [str(x) for x in B.atom_type_labels] != st["t_lab"]:
         bad.append("labels differ after reading back")
+    from mofun.atomic_masses import ATOMIC_MASSES
+    if all(e in ATOMIC_MASSES and abs(ATOMIC_MASSES[e] - m / QS) < 2e-3 for e, m in zip(st["t_el"], st["t_mass"])):
+        close = [e for e in st["t_el"] if sum(1 for x in ATOMIC_MASSES.values() if abs(x - ATOMIC_MASSES[e]) < 0.11) > 1]
+        if not close and [str(x) for x in B.atom_type_elements] != st["t_el"]:
+            bad.append("elements %s read back as %s" % (st["t_el"], [str(x) for x in B.atom_type_elements]))
     for k, t_, c_, x_, l_, ar in KINDS:
         tup = [tuple(int(v) for v in t) for t in np.array(getattr(B, k)).reshape(-1, ar).tolist()]
         if tup != [tuple(t) for t in st[k]["tup"]] or [int(x) for x in getattr(B, t_)] != st[k]["typ"]:
@@ -243,6 +248,46 @@ def gen_histories0(run):
                 d = touched[:max(1, len(base["pos"]) - 1)]
                 hs.append((base, [("del", d), ("extend", frag, []), ("extend", frag, [])], "empty-then-add"))
             hs.append((base, [("del", list(range(len(base["pos"])))), ("extend", frag, []), ("extend_twice", frag)], "delete-all-then-add"))
+    # (b2) a fragment term that re-states an existing term in the OPPOSITE atom order, at a different list position, through an identity map
+    for coeffs in (True, False):
+        for rep in range(4 if run.tier == "quick" else 30):
+            base = tagged(rng, 5, "s", coeffs, cell=CELL, rich=True, max_terms=1)
+            frag = tagged(rng, 3, "f", coeffs, rich=True, max_terms=1)
+            for kname, t_, c_, x_, l_, ar in KINDS:
+                pool = [tuple(rng.sample(range(5), ar)) for _ in range(4)]
+                seen = []
+                for t in pool:
+                    if t not in seen and t[::-1] not in seen:
+                        seen.append(t)
+                base[kname]["tup"] = seen
+                base[kname]["typ"] = [0] * len(seen)
+                base[kname]["xf"] = [["ts%s%d" % (kname[0], j)] + ["q"] * (len(base[kname]["xl"]) - 1) for j in range(len(seen))]
+                if coeffs and not base[kname]["coef"]:
+                    base[kname]["coef"] = ["s%s0 #c" % kname[0]]
+            # the fragment's atoms 0,1,2 are declared identical to three atoms of the structure; its terms mirror existing ones reversed
+            m = list(zip(range(3), rng.sample(range(5), 3)))
+            inv = {v: k for k, v in m}
+            for kname, t_, c_, x_, l_, ar in KINDS:
+                cands = [t for t in base[kname]["tup"] if all(v in inv for v in t)]
+                frag[kname]["tup"] = [tuple(inv[v] for v in t[::-1]) for t in cands[-1:]] if cands and ar <= 3 else []
+                frag[kname]["typ"] = [0] * len(frag[kname]["tup"])
+                frag[kname]["xf"] = [["tf%s%d" % (kname[0], j)] + ["q"] * (len(frag[kname]["xl"]) - 1) for j in range(len(frag[kname]["tup"]))]
+                if coeffs and not frag[kname]["coef"]:
+                    frag[kname]["coef"] = ["f%s0 #c" % kname[0]]
+            hs.append((base, [("extend", frag, m), ("del", [0])], "override-reversed"))
+    # (b3) real elements with their tabulated masses: the LAMMPS file must read back with the same elements
+    from mofun.atomic_masses import ATOMIC_MASSES
+    for rep in range(4 if run.tier == "quick" else 30):
+        n = rng.randint(3, 7)
+        base = tagged(rng, n, "s", True, cell=OCELL, rich=True)
+        els = rng.sample(["K", "Ni", "I", "C", "H", "O", "Zr", "Ar", "Co", "Te", "Cu", "N", "Pa", "Th"], len(base["t_el"]))
+        base["t_el"] = els
+        base["t_mass"] = [int(round(ATOMIC_MASSES[e] * QS)) for e in els]
+        frag = tagged(rng, 2, "f", True, rich=True)
+        fels = rng.sample(["S", "Cl", "F", "Np", "U"], len(frag["t_el"]))
+        frag["t_el"] = fels
+        frag["t_mass"] = [int(round(ATOMIC_MASSES[e] * QS)) for e in fels]
+        hs.append((base, [("extend", frag, []), ("del", [0])], "real-elements"))
     # (c) random longer histories
     nrand = 120 if run.tier == "quick" else 1500
     for h in range(nrand):
